@@ -20,7 +20,9 @@ def check(tier, seed):
     for code in (4, 11, 5, 1, 2147483647, 2147483649, 3221225472):
         fails += [f'errbefore@{code}', '+'.join([f'errbefore@{code}'] * 3), '+'.join([f'errbefore@{code}'] * 6), f'errafter@{code}:' + 'ab' * 32,
                   f'errbefore@{code}+ok:' + draw.hex(), '+'.join([f'errafter@{code}:' + draw.hex()] * 4)]
-    oks = ['ok:' + draw.hex(), 'ok:' + draw.hex() + '+errbefore', 'ok:' + draw.hex() + '+ok:' + 'ff' * 32]
+    # draws of a special form are draws like any other: all-00 (the value the deterministic variant uses), all-FF, a single set bit
+    special = ['ok:' + '00' * 32, 'ok:' + 'ff' * 32, 'ok:' + '00' * 31 + '01', 'ok:' + '80' + '00' * 31, 'ok:' + '00' * 32 + '+ok:' + 'ab' * 32, 'ok:' + '00' * 32 + '+errbefore']
+    oks = special + ['ok:' + draw.hex(), 'ok:' + draw.hex() + '+errbefore', 'ok:' + draw.hex() + '+ok:' + 'ff' * 32]
     want_fail = lambda o: None if o == 'err:rng calls=tryfill32' else 'a failing generator must yield Err after exactly one fallible 32-byte request (no panic, no key/signature)'
     want_ok = lambda o: None if o.startswith('ok ') and o.endswith('calls=tryfill32') else 'success must use exactly one try_fill_bytes(32) request'
     cases = []
